@@ -37,6 +37,30 @@ func vcp(b []byte) []byte { return append([]byte{}, b...) }
 
 // verifHarnessC19: command sequences over a small key space mixing all five types, deletions, re-creation with
 // another type, expiry and restarts; every reply equals the reference model's.
+// vOneBuf: (param onebuf) the command's arguments are sub-slices of ONE request buffer, each followed directly by the
+// next (so every argument has spare capacity that holds another argument); returns the sub-slices and a checker
+// that the request bytes are unchanged after the call.
+func vOneBuf(args ...[]byte) ([][]byte, func(id string)) {
+	if verifParam("onebuf") != 1 {
+		return args, func(string) {}
+	}
+	var req []byte
+	for _, a := range args {
+		req = append(req, a...)
+	}
+	req = append(req, 0xC3, 0xC3, 0xC3, 0xC3, 0xC3, 0xC3, 0xC3, 0xC3) // more of the caller's memory behind the request
+	shadow := append([]byte{}, req...)
+	out := make([][]byte, len(args))
+	off := 0
+	for i, a := range args {
+		out[i] = req[off : off+len(a)]
+		off += len(a)
+	}
+	return out, func(id string) {
+		verifAssert(verifBytesEq(req, shadow), id+".request-buffer-modified")
+	}
+}
+
 // vVal19 draws a command argument value: 1 byte, or (param vlen0) 0 or 1 bytes.
 func vVal19(name string) []byte {
 	if verifParam("vlen0") == 1 && verifChoice(name+"-empty", 2) == 1 {
@@ -167,7 +191,9 @@ func verifHarnessC19() {
 		case cHSet:
 			f := verifChoice("fi", 2)
 			v := vVal19("hv")
-			isNew, err := dts.HSet(key, elems[f], v)
+			hargs, unchanged := vOneBuf(key, elems[f], v)
+			isNew, err := dts.HSet(hargs[0], hargs[1], hargs[2])
+			unchanged("C19.hset")
 			if wrong(vHash) {
 				verifAssert(err == ErrWrongTypeOperation, "C19.hset-wrongtype")
 				break
@@ -180,7 +206,9 @@ func verifHarnessC19() {
 			s.hash[f] = vcp(v)
 		case cHGet:
 			f := verifChoice("fi", 2)
-			v, err := dts.HGet(key, elems[f])
+			gargs, unchanged := vOneBuf(key, elems[f])
+			v, err := dts.HGet(gargs[0], gargs[1])
+			unchanged("C19.hget")
 			if wrong(vHash) {
 				verifAssert(err == ErrWrongTypeOperation, "C19.hget-wrongtype")
 				break
